@@ -172,7 +172,7 @@ def run(ctx):
     k2_unreachable(ctx, "R5-steal-needs-option", where, g, {"self.get_config().get('locks.steal_dead')": False}, fb, "stealing requires the locks.steal_dead option")
     args = {norm(c.args[0]) for i in fb for c in g.nodes[i].calls() if call_attr(c) == "force_break" and c.args}
     ctx.check("R5-break-examined", where, args == {"other_holder"}, "the lock broken is the one whose holder info was examined", construct=str(args))
-    fn, g, where = fn_cfg(ctx, LD, "LockDir.break_lock")
+    fn, g, where = fn_cfg(ctx, LD, "LockDir.break_lock", roles={"holder_info": ("assign", "self.peek()")})
     fb = need(where, calling(g, attr="force_break", recv="self"), "self.force_break(...)")
     k2_unreachable(ctx, "R5-break-needs-confirm", where, g, {"holder_info is not None": False}, fb, "break_lock breaks only a lock whose info it could read")
     conf_tests = [n.id for n in g.nodes if n.kind == "test" and any(call_attr(c) in ("confirm_action", "get_boolean") for c in calls_in(n.ast))]
